@@ -185,8 +185,12 @@ def judge(ctx: Ctx, items):
 
 
 def self_test(ctx: Ctx):
-    ev = close_all([("enter", {"vf-a.b": 2, "vf-new": 1}, False), ("enter", {"precision": "float64"}, False)])
-    t = run_nesting(ev, INIT_EXTRA)
+    # synthetic trace (independent of the real code): two nested contexts entered and left
+    c0 = [[["p"], 1], [["vf-a"], 0], [["vf-a", "b"], 2]]
+    c1_ = [[["p"], 1], [["vf-a"], 0], [["vf-a", "b"], 3], [["vf-new"], 2]]
+    c2_ = [[["p"], 4], [["vf-a"], 0], [["vf-a", "b"], 3], [["vf-new"], 2]]
+    t = [{"a": "Init", "cfg": c0}, {"a": "Enter", "cfg": c1_}, {"a": "Enter", "cfg": c2_}, {"a": "Exit", "cfg": c1_},
+         {"a": "ExitExc", "cfg": c0}]
     c1 = json.loads(json.dumps(t))
     c1[-1]["cfg"] = c1[-1]["cfg"][:-1]                    # corrupted: one key missing after the last Exit
     c2 = [x for i, x in enumerate(json.loads(json.dumps(t))) if i != 3]   # removed event: one Exit not observed
